@@ -17,8 +17,10 @@ variable {ν : Type} [DecidableEq ν] {α : Type}
 
 /-- A call is accepted (no diagnostic) exactly when it is well-formed: positional arguments come
     first and are no more than the parameters, every name is a parameter, none is given twice by
-    name or by name and position, and every parameter without a default is supplied.  Every misuse
-    therefore yields a diagnostic (`decide` is total: there is no crash outcome). -/
+    name or by name and position, and every parameter without a default is supplied — for
+    parameter lists whose names are pairwise distinct (hypothesis `hnd`).  `decide` is a total
+    function with no crash outcome, so under that hypothesis every misuse yields a diagnostic
+    (`C18_misuse_rejected`). -/
 theorem C18_accept_iff_wellformed (ps : List (Param ν)) (args : List (Arg ν α))
     (hnd : (ps.map (·.name)).Nodup) :
     (decide ps args).diags = [] ↔ WellFormed ps args := by
